@@ -61,6 +61,7 @@ def main(argv=None):
     ap.add_argument("--replay")
     ap.add_argument("--root", default=REPO)
     ap.add_argument("--no-selfcheck", action="store_true")
+    ap.add_argument("--no-evidence", action="store_true", help="development runs against a scratch tree: write no evidence / replay file")
     ap.add_argument("-v", "--verbose", action="store_true")
     a = ap.parse_args(argv)
     prop = a.prop.upper()
@@ -92,7 +93,7 @@ def main(argv=None):
             print("KNOWN-FINDING: property=%s %s %s at %s: %s" % (prop, f.rule, f.construct, f.site, f.message))
         replays = []
         for f in new:
-            path = write_replay(f)
+            path = write_replay(f) if not a.no_evidence else "(not-written)"
             replays.append(path)
             print("%s: %s [%s] %s\n    %s" % (f.site, f.rule, f.construct, f.message, f.text))
             print("VIOLATION property=%s replay=%s" % (prop, path))
@@ -136,8 +137,9 @@ def main(argv=None):
             coverage["discharged"] = len([i for i in obl if i["verdict"] == "holds"])
             coverage["checker_cmd"] = "/venv/bin/python -m sa.check %s --tier %s" % (prop, a.tier)
             coverage["trusted_base"] = list(getattr(mod, "TRUSTED_BASE", []))
-        write_evidence(prop, a.tier, seed, getattr(mod, "LEVEL", "other"), coverage,
-                       list(getattr(mod, "ASSUMPTIONS", [])), time.time() - t0, len(new))
+        if not a.no_evidence:
+            write_evidence(prop, a.tier, seed, getattr(mod, "LEVEL", "other"), coverage,
+                           list(getattr(mod, "ASSUMPTIONS", [])), time.time() - t0, len(new))
         print("%s %s: %d rule instances over %d rules, %d known finding(s), %d new violation(s), "
               "selfcheck %d witnesses / %d twins / %d stored seeded changes / %d behaviour-preserving changes silent%s, %.2fs" %
               (prop, a.tier, len(ctx.instances), len(per_rule), len(known), len(new),
